@@ -80,9 +80,15 @@ CHECKS = {
    technique="TLA+ reference model of FIXContainer/FIXMessage as an ordered tag map (spec/Container.tla: every public method as ApplyOp) explored by TLC (spec/ContainerMC.tla: order and duplicate laws); a shortest operation path to every model state x every mutating operation x a battery of accessors replayed on real FIXMessage objects; every result and the content after every operation compared by TLC (spec/ContainerEval.tla); seeded random sequences",
    text="set / replace / delete / get (with default) / contains with int, decimal string, tag enum and non-integer spellings; str, int, float and enum values; add_group at index -1, 0, mid, beyond; set_group; group lookups by list, index and member value; equality with containers and dicts (with framing tags); pickle round trip - compared step by step with the model, 'unspecified' outcomes skipped.",
    design_ref="5/C18", note="The list of unspecified cases is in the module header of spec/Container.tla and in the evidence assumptions. " + COMMON_NOTE),
+ "C19": dict(engine="Lexical",
+   technique="the lexical space of every FIX 4.4 datatype as a three-valued recogniser over strings in TLA+ (spec/Lexical.tla, self-tested by TLC in spec/LexicalMC.tla); TLC (spec/LexicalEval.tla) judges the outcome of the real SchemaField.validate_value on all strings up to length 3-4 over type-specific alphabets, boundary products of the fixed-layout types and all enumerators + near misses of both dictionaries",
+   text="Per datatype of both dictionaries: exhaustive short strings over an alphabet of digits, sign, dot, underscore, space, exponent letter, non-ASCII digit (numeric types) or letters, space, '=', SOH (text types); year/month/day/hour/minute/second/fraction boundary products with layout defects for timestamps, dates, times, MonthYear; every enumerated field with its enumerators and case/prefix/suffix/neighbour near misses. Acceptance iff member, rejection only by FIXMessageError.",
+   design_ref="5/C19", note="Unspecified decisions (nothing asserted) are listed in the header of spec/Lexical.tla. " + COMMON_NOTE),
 }
 
 ENGINES = [
+ dict(name="Lexical", path="spec/Lexical.tla spec/LexicalMC.tla spec/LexicalEval.tla harness/props/c19.py",
+      serves_properties=["C19"], kind_free_text="TLA+ recognisers of the FIX datatype lexical spaces evaluated by TLC against the real validator"),
  dict(name="Container", path="spec/Container.tla spec/ContainerMC.tla spec/ContainerEval.tla harness/props/c18.py",
       serves_properties=["C18"], kind_free_text="TLA+ reference model of the message container + TLC + refinement check on real objects"),
  dict(name="OrderLife", path="spec/OrderLifeFn.tla spec/OrderLife.tla spec/OrderLifeEval.tla harness/props/c17.py",
